@@ -557,7 +557,7 @@ func (c *c14Check) Run(seed, run uint64, rec []uint32, st Stats, only *Viol) []V
 	nact := 4 + t.Intn(22)
 	for a := 0; a < nact && len(viols) == 0; a++ {
 		s.Actions++
-		op := t.Pick(3, 1, 8, 2, 1, 1, 1, 1, 3)
+		op := t.Pick(3, 1, 8, 2, 1, 1, 1, 1, 3, 2)
 		if len(nameList) == 0 {
 			op = 0
 		}
@@ -804,6 +804,24 @@ func (c *c14Check) Run(seed, run uint64, rec []uint32, st Stats, only *Viol) []V
 			d1, d2 := describe(r1)+" callee="+fmt.Sprint(traceIDs(r1)), describe(r2)+" callee="+fmt.Sprint(traceIDs(r2))
 			if d1 != d2 {
 				fail("fresh-vs-fresh", f.kind, "differs", "first three results of "+src+".new(a) = those of the literal's new(a): "+d2, d1)
+			}
+		case 9: // a chain (or A) leaves the iterator it was applied to where it was - also when the
+			// body keeps its progress where neither recur nor new rebinds it (model-free: two fresh
+			// iterators, one of them chained over first, must go on alike)
+			fi := t.Intn(nf)
+			f := fams[fi]
+			if !(f.finite() || f.kind == "localstate") || f.kind == "gen" {
+				continue
+			}
+			arg := int64(t.Intn(4))
+			chain := []string{"pa.A", "pa@{|x| x}", "pa$(0){|acc, x| x}", "pa~@{|x| x}"}[t.Intn(4)]
+			probe := "[%s.try.next.A.S, %s.try.next.A.S]"
+			r1 := eval(fmt.Sprintf("pa := g%d.new(%d); %s; "+probe, fi, arg, chain, "pa", "pa"), nil)
+			r2 := eval(fmt.Sprintf("pb := g%d.new(%d); "+probe, fi, arg, "pb", "pb"), nil)
+			s.Ops["chain-leaves-receiver"]++
+			inter = append(inter, "chainfresh")
+			if d1, d2 := describe(r1), describe(r2); d1 != d2 {
+				fail("chain-leaves-receiver", f.kind, "differs", "after "+chain+" the iterator goes on like an untouched one: "+d2, d1)
 			}
 		case 6: // copy through _iter: independent state equal to the current one
 			src := pickName()
